@@ -445,7 +445,9 @@ def call_lua_sandbox(
             frame_args = {}
             for k, arg in args.items():
                 arg = re.sub(r"(?si)(<\s*noinclude\s*/\s*>|\n$)", "", arg)
-                frame_args[k] = (arg, False)
+                # Already expanded by the template machinery: only turn
+                # what is left of the encoding back into text
+                frame_args[k] = (ctx._finalize_expand(arg), False, True)
         else:
             assert isinstance(args, (list, tuple))
             frame_args = {}
@@ -481,7 +483,7 @@ def call_lua_sandbox(
                 # does not always like them (e.g., remove_links() in
                 # Module:links).
                 arg = re.sub(r"(?si)(<\s*noinclude\s*/\s*>|\n$)", "", arg)
-                frame_args[k] = (arg, m is not None)
+                frame_args[k] = (arg, m is not None, False)
         frame_args_lt: "_LuaTable" = lua.table_from(frame_args)  # type: ignore[union-attr]
 
         def extensionTag(frame: "_LuaTable", *args: Any) -> str:
